@@ -100,6 +100,10 @@ class PolicyVsActor(Unit):
                         if not sis and (depth != 2 or act != "relu"):
                             continue
                         yield f"depth={depth},{act},rng={int(rng)},state_independent_std={int(sis)}", dict(depth=depth, act=act, rng=rng, sis=sis)
+        # parameters that went through jit / scan / tree_map (every trained PPOResult) come back with their dict keys SORTED: Dense_0, Dense_1, Dense_10, Dense_11, Dense_2, ...
+        # (numeric and lexicographic order differ from 10 hidden layers on)
+        for rng in (False, True):
+            yield f"depth=11,relu,rng={int(rng)},state_independent_std=1,keys in pytree (sorted) order", dict(depth=11, act="relu", rng=rng, sis=True, sorted_keys=True)
 
     def opts(self, cfg):
         import ast as _ast
@@ -142,6 +146,8 @@ class PolicyVsActor(Unit):
             layers = {f"Dense_{i}": Layer(i) for i in range(cfg["depth"] + 1)}
             if cfg["sis"]:
                 layers["log_std"] = LOGSTD
+            if cfg.get("sorted_keys"):
+                layers = {k: layers[k] for k in sorted(layers)}
             pol = Rec("Policy", dict(act_scaling=None, obs_scaling=None, model={"actor": layers}, hidden_activation=cfg["act"], output_activation="gaussian", state_independent_std=cfg["sis"]), module=PPO, frozen=True)
             try:
                 a = ctx.call(self_obj=pol, args=[x], kwargs=dict(rng=rng) if cfg["rng"] else {})
